@@ -84,7 +84,13 @@ func c01Check(ctx *vfCtx, c c01Case) {
 
 	var out []byte
 	var err error
-	if vfCatch(ctx, "C01", func() { out, err = CanonicalJSON(append([]byte(nil), text...)) }) {
+	given := append([]byte(nil), text...)
+	if vfCatch(ctx, "C01", func() { out, err = CanonicalJSON(given) }) {
+		return
+	}
+	// the text handed over is the caller's and reads as before (the result is a value of its own)
+	if !bytes.Equal(given, text) {
+		ctx.Fail("C01/input-overwritten", "CanonicalJSON changed the text it was given: %q now reads %q", text, given)
 		return
 	}
 
